@@ -2,7 +2,8 @@
 
 Decided: gather index spaces (node coords through edge_node, face-centre coords through edge_face), boundary-edge fill guard,
 degrees->radians before trig, last-axis reductions in rank-polymorphic helpers, abs on every return of the difference helpers,
-result dims/grid, supplied distances by role (MPAS dvEdge/dcEdge incl. the dual)."""
+result dims/grid, supplied distances by role (MPAS dvEdge/dcEdge incl. the dual).
+normalisation divides every slice whose norm is not zero."""
 
 import ast
 
